@@ -138,8 +138,9 @@ Section StepSSC.
     Forall (fun s => In s (map fst (decl_strands prev))) ss ->
     ssc_names prev ss = Some names -> length names = length (no_space sst) ->
     rot_dict names (no_space sst) = Some cdict -> canon_of cdict = Some (cn, e) -> rot_disjoint prev cdict ->
-    exists r' acc', read_one ct G None (TList line) acc r = (r', Ok acc') /\
-      SInv (prev ++ [SSC n ss sst]) r' acc' /\ Later r acc r' acc'.
+    exists r' i, (forall accR, read_one ct G None (TList line) accR r = (r', Ok (apply_delta (FKind KindC n i) accR))) /\
+      SInv (prev ++ [SSC n ss sst]) r' (apply_delta (FKind KindC n i) acc) /\
+      Later r acc r' (apply_delta (FKind KindC n i) acc).
   Proof.
     intros SI Hdec Hne Hnew Hss Hnames Hlen Hrd Hcan Hdis. pose proof SI as [C B].
     set (st := r_st r). set (i := length (heap st)).
@@ -253,6 +254,6 @@ Section StepSSC.
     - intros C' L'. cbn [Built ReaderSysA.Built]. exists names. apply HBC. exact L'.
     - intros n0 names0 sst0 Hin L'. cbn [cplx_entry] in Hin. rewrite Hnames in Hin. destruct Hin as [Hin|[]].
       injection Hin as <- <- <-. exists None. apply HBC. exact L'.
-    - eauto.
+    - eexists. eexists. split; [exact E3 | split; [exact SI' | exact L']].
   Qed.
 End StepSSC.
